@@ -1237,8 +1237,20 @@ class Interp:
             return abs(a - b) <= atol + rtol * abs(b)
         if fn in ("abs", "round", "min", "max") and all(isinstance(v, (int, float)) for v in vals):
             return {"abs": abs, "round": round, "min": min, "max": max}[fn](*vals)
-        if fn in ("max", "min") and len(vals) == 1 and isinstance(vals[0], (list, tuple)):
-            return (max if fn == "max" else min)(vals[0])
+        if fn in ("max", "min") and len(vals) == 1 and isinstance(vals[0], (list, tuple, set, frozenset, dict)):
+            seq = self.iterate(vals[0])
+            if not seq:
+                if "default" in kw:
+                    return kw["default"]
+                raise Raised(f"ValueError: {fn}() arg is an empty sequence")
+            if kw.get("key") is not None:
+                keyed = [(self.apply(kw["key"], [x_]), x_) for x_ in seq]
+                best = keyed[0]
+                for kx in keyed[1:]:  # first extremal element wins, as in Python
+                    if (kx[0] > best[0]) if fn == "max" else (kx[0] < best[0]):
+                        best = kx
+                return best[1]
+            return (max if fn == "max" else min)(seq)
         if fn in ("np.asarray", "numpy.asarray", "np.array"):
             return vals[0]
         if fn in ("defaultdict", "collections.defaultdict"):
